@@ -2,9 +2,9 @@
 # confirm_mutant.sh <prop> <k>: confirm a sub-agent's seeded change in a fresh scratch worktree of /repo HEAD
 # (demo passes clean, fails with patch, pinned test-suite still passes), then store it under /verif/seeded/<prop>-m<k>/
 prop=$1; k=$2
-src=/tmp/mut/$prop/out
-wt=/tmp/cm_${prop}_$k
-dst=/verif/seeded/${prop}-m$k
+src=${MUT_BASE:-/tmp/mut}/$prop/out
+wt=/tmp/cm${MUT_PREFIX:-m}_${prop}_$k
+dst=/verif/seeded/${prop}-${MUT_PREFIX:-m}$k
 rm -rf "$wt"; /verif/tools/mkwt.sh "$wt" >/dev/null || exit 2
 mkdir -p "$wt/out"; cp "$src/demo$k.py" "$wt/out/"
 cd "$wt"
@@ -23,7 +23,7 @@ import json, sys, subprocess
 prop, k, dst = sys.argv[1:4]
 head = subprocess.run(['git','-C','/repo','rev-parse','--short','HEAD'],capture_output=True,text=True).stdout.strip()
 notes = open(f'{dst}/notes.md').read() if __import__('os').path.exists(f'{dst}/notes.md') else ''
-json.dump({'id': f'{prop}-m{k}', 'breaks_property': prop, 'source': 'independent sub-agent given only the property text',
+json.dump({'id': __import__('os').path.basename(dst), 'breaks_property': prop, 'source': 'independent sub-agent given only the property text',
   'needs_to_manifest': notes[:1500],
   'confirmed': {'repo_head': head, 'scratch_worktree': 'fresh worktree of /repo HEAD under /tmp (removed afterwards)',
      'demo_on_clean_tree_exit': 0, 'demo_with_patch_exit': 'non-zero', 'pinned_stable_pass_tests_with_patch': 'all 1731 pass (tools/baseline.py)',
